@@ -11,8 +11,8 @@ import (
 
 func init() {
 	register(&propDef{
-		ID:  "C20",
-		Run: ruleC20,
+		ID:          "C20",
+		Run:         ruleC20,
 		Explanation: "Decides explicit flows of the Atlas private key inside the package (structural necessary condition of C20) by an inter-procedural taint analysis seeded at the --atlasPrivateKey flag variable and at os.Getenv(\"ATLAS_PRIVATE_KEY\"): a tainted value may only be compared with the empty string, copied between locals, passed to a package function, or stored into the Password field of a digest.Transport; every other use (formatting, concatenation, conversion, boxing, header/URL/request construction, storing in a global or another struct, returning to a library) is a violation naming the instruction. The digest.Transport object itself is used only as the Transport of an http.Client; the package sets no Authorization header and calls no SetBasicAuth. NOT decided: the digest fork's internals, what a malicious server can make the digest response reveal, process memory/core dumps.",
 		RuleText:    "obligations = every instruction using a tainted value (classified by an allow-list of use kinds), every use of a digest.Transport object, every header-setting / basic-auth call in the package",
 	})
